@@ -6,7 +6,7 @@ import props as P
 ALL = ['C%02d' % i for i in range(1, 19)]
 checks = []
 for pid in ALL:
-    if pid not in P.PROPS or P.PROPS[pid].get('hidden'):
+    if pid not in P.PROPS or P.PROPS[pid].get('hidden') or pid in getattr(P, '_HIDE', ()):
         continue
     c = P.PROPS[pid]
     checks.append({
